@@ -35,8 +35,10 @@ OPS = {
     "PowQFT3": lambda: qre.Pow(qre.QFT(2), 3), "AdjSemi": lambda: qre.Adjoint(qre.SemiAdder(4)), "Square": lambda: qre.OutOfPlaceSquare(3),
     "IntCmp": lambda: qre.IntegerComparator(5, 3), "AdjQROM": lambda: qre.Adjoint(qre.QROM(8, 4)), "SelectPauliRot": lambda: qre.SelectPauliRot("Z", 3, 1e-3),
     "PowPowQFT": lambda: qre.Pow(qre.Pow(qre.QFT(2), 3), 2), "CtrlQROM": lambda: qre.Controlled(qre.QROM(8, 4), 2, 1), "PhaseGrad": lambda: qre.PhaseGradient(4),
+    # net-positive / net-NEGATIVE wire bookkeeping (an un-computation releases the wires its partner left allocated)
+    "Alias": lambda: qre.AliasSampling(num_coeffs=3), "AdjAlias": lambda: qre.Adjoint(qre.AliasSampling(num_coeffs=3)),
 }
-QUICK_OPS = ["QFT3", "MCX5", "SemiAdder4", "QROM", "AdjQFT", "CtrlSemi", "PowQFT3", "AdjQROM", "PowPowQFT", "IntCmp"]
+QUICK_OPS = ["QFT3", "MCX5", "SemiAdder4", "QROM", "AdjQFT", "CtrlSemi", "PowQFT3", "AdjQROM", "PowPowQFT", "IntCmp", "Alias", "AdjAlias"]
 POW_BASES = {"QFT2": lambda: qre.QFT(2), "SemiAdder3": lambda: qre.SemiAdder(3), "MCX4": lambda: qre.MultiControlledX(4, 1), "CRY": lambda: qre.CRY(),
              "QROM": lambda: qre.QROM(4, 3), "AdjQFT2": lambda: qre.Adjoint(qre.QFT(2)), "CtrlSemi": lambda: qre.Controlled(qre.SemiAdder(2), 1, 0)}
 
@@ -146,7 +148,7 @@ def scalar_work(ka):
     ca = _counts(_concrete(A, any_state=10 ** 6))
 
     def build(S):
-        n = S.int("n", 1)
+        n = S.int("n", 1, 5000)  # bounded so that a net-negative operator cannot exhaust the 10^6 any_state wires it is given
         w1 = n * A
         r1 = estimate(w1, any_state_wires=10 ** 6)
         w2 = (1 * A).add_series(1 * A).multiply_series(n)
@@ -318,7 +320,7 @@ def run(ctx):
     ctx.encode(WireResourceManager.grab_zeroed, WireResourceManager.free_wires, EM._update_counts_from_compressed_res_op, EM._resources_from_resource,
                EM._get_symbolic_resource_decomposition, Resources, qre.Pow)
     ctx.bound(wire_manager="arbitrary non-negative integers zeroed, any_state, algo_wires, n; tight_budget free",
-              additivity=f"pairs over {len(names)} estimator operators (incl. Adjoint/Controlled/Pow and allocating templates); repetition counts n, m >= 0 and initial zeroed/any_state budgets arbitrary non-negative integers",
+              additivity=f"pairs over {len(names)} estimator operators (incl. Adjoint/Controlled/Pow and allocating templates); repetition counts n, m >= 0 (n in 1..5000 for the n*A arithmetic form) and initial zeroed/any_state budgets arbitrary non-negative integers",
               pow="exponents 1..9 (symbolic), nested once, 7 bases without their own power rule",
               outside="gate sets other than the default, custom decompositions in ResourceConfig, qfunc workflows (queuing), operators whose resource parameters would have to be symbolic")
     ctx.assume("count oracle: estimate(A) on A alone with a large any_state budget; net(A) = change of any_state_wires in that run",
